@@ -65,7 +65,15 @@ def rec_roundtrip(groups) -> dict:
         got = _g(to_obis_tupple(text))
     except Exception as ex:  # noqa: BLE001
         raised = type(ex).__name__
-    return {"id": stable_id("or", groups), "canary": "", "kind": "roundtrip", "groups": groups, "text": list(text.encode()), "raised": raised, "got": got}
+    try:                                   # growth: str()/repr() (six-part when every group is non-zero, reduced otherwise) parse back too
+        o = Obis(_tup(groups))
+        str_got = _g(to_obis_tupple(str(o)))
+        if repr(o) != str(o):
+            str_got = [0] * 6
+    except Exception:  # noqa: BLE001
+        str_got = [0] * 6
+    return {"id": stable_id("or", groups), "canary": "", "kind": "roundtrip", "groups": groups, "text": list(text.encode()), "raised": raised, "got": got,
+            "str_got": str_got}
 
 
 def rec_eq(g1, g2) -> dict:
@@ -124,6 +132,17 @@ def rec_registry() -> dict:
     inverse = sorted((code, name) for name, codes in obis_map.name_obis_map.items() for code in codes)
     return {"id": "registry", "canary": "", "kind": "registry", "table": table, "unparsable": len(bad),
             "inverse_ok": inverse == sorted(obis_map.obis_name_map.items()), "size": len(obis_map.obis_name_map)}
+
+
+def rec_catalogue() -> dict:
+    """Growth (DESIGN §12): the register catalogue OBIS_CODES of han/obis.py as (groups, category, unit, phase) rows."""
+    from han.obis import OBIS_CODES
+    rows = []
+    for x in OBIS_CODES:
+        g = _g(x.code.as_tupple())
+        rows.append({"cde": [g[2], g[3], g[4]], "a": g[0], "b": g[1], "f": g[5], "category": x.category.name,
+                     "unit": "" if x.unit is None else str(x.unit.value), "phase": NONE if x.phase is None else int(x.phase)})
+    return {"id": "catalogue", "canary": "", "kind": "catalogue", "codes": rows}
 
 
 def rand_groups(rng: random.Random):
@@ -196,6 +215,7 @@ def run_c20(chk: Check) -> int:
         recs.append(rec_malformed(w.replace(".", "")))
         recs.append(rec_malformed(_re.sub(r"\d", "x", w)))
     recs.append(rec_registry())
+    recs.append(rec_catalogue())
     # unique ids, canaries
     seen, uniq = set(), []
     for r in recs:
@@ -216,6 +236,9 @@ def run_c20(chk: Check) -> int:
     c = copy.deepcopy(next(r for r in recs if r["kind"] == "registry"))
     c["table"][0]["name"], c["canary"], c["id"] = "meter_type", "registry", "canary-registry"
     recs.append(c)
+    c = copy.deepcopy(next(r for r in recs if r["kind"] == "catalogue"))
+    c["codes"][5]["phase"], c["canary"], c["id"] = 2, "catalogue", "canary-catalogue"
+    recs.append(c)
     verdicts = chk.judge("obis", "Trace_Obis", recs, what="c20-ops")
     for r, v in zip(recs, verdicts):
         if r["canary"]:
@@ -224,6 +247,10 @@ def run_c20(chk: Check) -> int:
         if v["ok"] and v.get("drift"):
             chk.drift(f"han.obis_map tables differ from spec/common/ObisMap.tla NameTable: {r['table'][:4]}... size {r['size']} (growth clause {v['drift']}, not part of C20)"
                       if r["kind"] == "registry" else
+                      f"parsing str(Obis({r['groups']})) gives {r['str_got']} (growth clause {v['drift']}, not part of C20)" if r["kind"] == "roundtrip" else
+                      f"han.obis.OBIS_CODES breaks the catalogue rules of spec/common/ObisMap.tla (unit/category/phase by code, no duplicates, "
+                      f"covers the named measurements): {[x for x in r['codes']][:3]}... (growth clause {v['drift']}, not part of C20)"
+                      if r["kind"] == "catalogue" else
                       f"Obis({r['g1']}).filter_group_cde() = {r['fcde']} (growth clause {v['drift']}, not part of C20)")
         if not v["ok"]:
             if v["clause"] == "plan":
@@ -254,6 +281,8 @@ def replay_c20(chk: Check, rp: dict) -> int:
         n = rec_roundtrip(r["groups"])
     elif r["kind"] == "registry":
         n = rec_registry()
+    elif r["kind"] == "catalogue":
+        n = rec_catalogue()
     else:
         n = rec_eq(r["g1"], r["g2"])
     v = chk.judge("obis", "Trace_Obis", [n], what="replay")[0]
